@@ -23,12 +23,20 @@ type Group struct {
 	W    *World
 	Name string
 	Hsh  bool // points implement kyber.HashablePoint
+	PLen int  // length of a point encoding (0 = 32); a longer encoding is 0x04 || token || zero padding, like an uncompressed point
+}
+
+func (g *Group) plen() int {
+	if g.PLen == 0 {
+		return 32
+	}
+	return g.PLen
 }
 
 func (g *Group) String() string       { return "Sym" + g.Name }
 func (g *Group) ScalarLen() int       { return 32 }
 func (g *Group) Scalar() kyber.Scalar { return &Scalar{g: g, t: g.W.lconst(0)} }
-func (g *Group) PointLen() int        { return 32 }
+func (g *Group) PointLen() int        { return g.plen() }
 func (g *Group) Point() kyber.Point {
 	if g.Hsh {
 		return &HPoint{Point{g: g, t: g.W.lconst(0)}}
@@ -193,25 +201,43 @@ func (p *Point) T() *Term     { return p.t }
 func (p *Point) w() *World    { return p.g.W }
 func (p *Point) lock() func() { p.g.W.mu.Lock(); return p.g.W.mu.Unlock }
 func (p *Point) MarshalBinary() ([]byte, error) {
-	return append([]byte{}, p.w().token("P"+p.g.Name, p.t)...), nil
+	tok := p.w().token("P"+p.g.Name, p.t)
+	if n := p.g.plen(); n != 32 {
+		out := make([]byte, n)
+		out[0] = 4
+		copy(out[1:], tok)
+		return out, nil
+	}
+	return append([]byte{}, tok...), nil
 }
 func (p *Point) UnmarshalBinary(b []byte) error {
-	if len(b) != 32 {
+	if len(b) != p.g.plen() {
 		return errors.New("sym: wrong point length")
+	}
+	if p.g.plen() != 32 {
+		if b[0] != 4 {
+			return errors.New("sym: wrong point format byte")
+		}
+		for _, x := range b[33:] {
+			if x != 0 {
+				return errors.New("sym: malformed point encoding")
+			}
+		}
+		b = b[1:33]
 	}
 	p.t = p.w().fromToken("P"+p.g.Name, b)
 	p.data = nil
 	return nil
 }
 func (p *Point) String() string                     { return fmt.Sprintf("p#%d", p.t.id) }
-func (p *Point) MarshalSize() int                   { return 32 }
+func (p *Point) MarshalSize() int                   { return p.g.plen() }
 func (p *Point) MarshalTo(w io.Writer) (int, error) { b, _ := p.MarshalBinary(); return w.Write(b) }
 func (p *Point) UnmarshalFrom(r io.Reader) (int, error) {
 	if strm, ok := r.(cipher.Stream); ok {
 		p.Pick(strm)
 		return -1, nil
 	}
-	buf := make([]byte, 32)
+	buf := make([]byte, p.g.plen())
 	n, err := io.ReadFull(r, buf)
 	if err != nil {
 		return n, err
